@@ -465,6 +465,9 @@ func genH3Cases(r *hk.Rand, quick bool, add func(*Case)) {
 	}
 	for _, g := range h3Sequences() {
 		for i := 0; i < reps; i++ {
+			if i >= 3 && (strings.Contains(g.shape, "flood") || strings.Contains(g.shape, "big-skipped")) {
+				break
+			}
 			c := &Case{Kind: "h3", Method: hk.Pick(r, []string{"GET", "GET", "POST", "HEAD"}), Shape: "h3:" + g.shape, H3: &H3Extra{}}
 			if i == 0 {
 				c.Opts = Opts{DisableAutoDecode: true}
